@@ -74,6 +74,18 @@ def shallow_scenarios(tier):
     return fn
 
 
+# two contents of many blocks (more than 64 KiB): concurrent stores of different pids and different contents
+BIG_ARGS = dict(pids=["a", "b"], contents=[big_bytes(70001), big_bytes(70001, b"another tail")], formats=[None],
+                fake_cid=False, blksize=4096)
+
+
+def big_scenarios(tier):
+    def fn(w):
+        calls = [step.StoreObj(0, 0), step.StoreObj(1, 1)]
+        return [("%s || from: empty store (two contents of 70001 bytes)" % " || ".join(c.label for c in calls), {}, calls)]
+    return fn
+
+
 def claim_scenarios(tier):
     """one pair per locked-identifier list, explored with two preemptions in every tier: 'the identifier is free' and
     'the identifier is mine' must be one step (with a single preemption the second thread always runs to the end
@@ -149,6 +161,9 @@ def main(tier, replay_payload=None):
         if replay_payload.get("claim"):
             return conc.replay_schedule(W_ARGS, claim_scenarios(tier), replay_payload["k"], replay_payload["log"],
                                         replay_payload["bound"], replay_payload["clauses"][0])
+        if replay_payload.get("big"):
+            return conc.replay_schedule(BIG_ARGS, big_scenarios(tier), replay_payload["k"], replay_payload["log"],
+                                        replay_payload["bound"], replay_payload["clauses"][0])
         fn = scenarios_for(tier, triples=True) if replay_payload.get("triples") else sf
         return conc.replay_schedule(W_ARGS, fn, replay_payload["k"], replay_payload["log"],
                                     replay_payload["bound"], replay_payload["clauses"][0])
@@ -160,6 +175,8 @@ def main(tier, replay_payload=None):
             return conc.replay_schedule(SHALLOW_ARGS, shallow_scenarios(tier), p["k"], p["log"], p["bound"], p["clauses"][0])
         if p.get("claim"):
             return conc.replay_schedule(W_ARGS, claim_scenarios(tier), p["k"], p["log"], p["bound"], p["clauses"][0])
+        if p.get("big"):
+            return conc.replay_schedule(BIG_ARGS, big_scenarios(tier), p["k"], p["log"], p["bound"], p["clauses"][0])
         fn = scenarios_for(tier, triples=True) if p.get("triples") else sf
         return conc.replay_schedule(W_ARGS, fn, p["k"], p["log"], p["bound"], p["clauses"][0])
     run.replayer = replayer
@@ -171,6 +188,10 @@ def main(tier, replay_payload=None):
     fold(run, conc.explore_scenarios(SHALLOW_ARGS, shallow_scenarios(tier), bound), "LIN:", bound)
     for sig in set(run.failures) - before:
         run.failures[sig]["payload"]["shallow"] = True
+    before = set(run.failures)
+    fold(run, conc.explore_scenarios(BIG_ARGS, big_scenarios(tier), 1), "LIN:", 1)
+    for sig in set(run.failures) - before:
+        run.failures[sig]["payload"]["big"] = True
     if bound < 2:
         before = set(run.failures)
         fold(run, conc.explore_scenarios(W_ARGS, claim_scenarios(tier), 2), "LIN:", 2)
